@@ -89,3 +89,17 @@ package utils
 //@   ensures len(r) >= 1 && r[0] == '/'
 //@   ensures noUpper(r)
 //@   ensures noDotSeg(r)
+
+// ---- the multicast address / port pool (C20): taking an address or a port is a counted effect ------------------------
+// taken(p): ghost counter of addresses and ports handed out. The pool serialises itself with its own mutex (assumed:
+// callers do not hold it - it is unexported and only these two methods use it); the seeds are abstracted as misc(p).
+//@ func (p *multicast) NextIP() (ip string)
+//@   trusted
+//@   requires p != nil
+//@   modifies misc(p), ghostInt(p, "taken")
+//@   ensures ghostInt(p, "taken") == old(ghostInt(p, "taken")) + 1
+//@ func (p *multicast) NextPort() (port int)
+//@   trusted
+//@   requires p != nil
+//@   modifies misc(p), ghostInt(p, "taken")
+//@   ensures ghostInt(p, "taken") == old(ghostInt(p, "taken")) + 1
